@@ -75,9 +75,17 @@ package txt
 // ---------------------------------------------------------------------------------------------
 // indentation.go
 
+// An indentation style consists of ASCII characters only (it is one of txt.Indentations).
+//@ type Indentator invariant ascii(self.indentationStyle)
+
+//@ func NewIndentator
+//@ requires forall(k, 0, len(allowedIndentationStyles), ascii(allowedIndentationStyles[k]))
+//@ ensures implies(result != nil, fresh(result))
+//@ loop 1 invariant true
+
 //@ func (*Indentator).NewIndentedParseable
 //@ requires atLevel >= 0
-//@ ensures implies(result != nil, fresh(result) && result.PointerPosition >= 0 && result.PointerPosition == atLevel*len(i.indentationStyle) && result.PointerPosition <= len(l.Text) && len(result.Chars) == runelen(l.Text))
+//@ ensures implies(result != nil, fresh(result) && result.PointerPosition >= 0 && result.PointerPosition == atLevel*len(i.indentationStyle) && result.PointerPosition <= len(l.Text) && len(result.Chars) == runelen(l.Text) && result.PointerPosition <= len(result.Chars))
 
 // ---------------------------------------------------------------------------------------------
 // block.go
